@@ -66,9 +66,10 @@ GUARDS = {
     "window_length + fh_max >= n_timepoints": ("GReduceTooShort", True),
     # the feasibility tests of the window splitters (`_check_window_lengths`, wherever they live);
     # keys are in canonical form: temporaries replaced, `a < b` written `b > a`
-    "window_length + fh[-1] > y.shape[0]": ("GWlTooLong", True),
-    "initial_window + fh[-1] > y.shape[0]": ("GIwTooLong", True),
-    "initial_window is not None": ("GIwGiven", True),
+    # and a local that holds a checked setting (`wl = check_window_length(self.window_length)`: the
+    # validators return their argument, BridgeV) is the setting
+    "self.window_length + fh[-1] > y.shape[0]": ("GWlTooLong", True),
+    "self.initial_window + fh[-1] > y.shape[0]": ("GIwTooLong", True),
     "self.refit": ("GRefit", True),
 }
 
@@ -276,6 +277,9 @@ ROLE_VALIDATORS = [
      v_name("VReduceStrategy", "strategy")),
     ("_check_scitype", "", "sktime/forecasting/compose/_reduce.py", v_name("VScitype", "scitype")),
 ]
+# validators that return their (accepted) argument unchanged - proved for the regenerated code:
+# bridge_check_window_length / bridge_check_step_length give `Ok v` for the argument `v`
+IDENTITY_VALIDATORS = ("check_window_length", "check_step_length")
 CHECKLIKE = re.compile(r"(^|\.)(_?check_\w*|_set_fh|_set_y_X|_update_y_X|_update_X|check_is_fitted"
                        r"|_infer_scitype|_set_cutoff)$")
 
@@ -493,7 +497,14 @@ class Chain:
         sub_map = {}
         for n in names:
             if n in given:
-                sub_map[n] = self.subst_temps(given[n])
+                arg = self.subst_temps(given[n])
+                if any(isinstance(x, ast.Call) and not re.match(
+                        r"^(np\.(max|min|abs)|len|abs|min|max|isinstance|type)$", ast.unparse(x.func))
+                       for x in ast.walk(arg)):
+                    # an argument that is computed by a call is evaluated once, at the call site
+                    # (its events are listed there): inside the helper the parameter is just a value
+                    continue
+                sub_map[n] = arg
             elif n in dflt:
                 sub_map[n] = dflt[n]
             else:
@@ -713,10 +724,14 @@ class Chain:
         self.temps = dict(getattr(self, "temps", {}))
         for st in stmts:
             if isinstance(st, ast.Assign) and len(st.targets) == 1 \
-                    and isinstance(st.targets[0], ast.Name) and counts.get(st.targets[0].id) == 1 \
-                    and pure(st.value) and not any(
-                        isinstance(x, ast.Name) and x.id == st.targets[0].id for x in ast.walk(st.value)):
-                self.temps[st.targets[0].id] = st.value
+                    and isinstance(st.targets[0], ast.Name) and counts.get(st.targets[0].id) == 1:
+                v = st.value
+                if isinstance(v, ast.Call) and ast.unparse(v.func) in IDENTITY_VALIDATORS \
+                        and v.args and not any(isinstance(a, ast.Starred) for a in v.args):
+                    v = v.args[0]          # the checked value is the argument (the call is an event)
+                if pure(v) and not any(isinstance(x, ast.Name) and x.id == st.targets[0].id
+                                       for x in ast.walk(v)):
+                    self.temps[st.targets[0].id] = v
 
     def walk(self, stmts, path):
         """Returns "raise" / "return" if every path through the block ends that way (so nothing
@@ -942,6 +957,31 @@ Open Scope Z_scope.
 """
 
 
+def _exclusive(p, q):
+    """Two path conditions that cannot hold in the same run."""
+    d = dict(p)
+    return any(g in d and d[g] != b for g, b in q)
+
+
+def canonical_order(events):
+    """The order of two events only means something if both can happen in one run.  Events whose
+    path conditions exclude each other (the two branches of an if / else, a guard clause and the
+    code after it, a conditional expression) are listed in ONE order whatever the source order is:
+    among the events all of whose co-occurring predecessors are already listed, the one with the
+    smallest key (path with `guard holds` before `guard fails`, then the action) comes next."""
+    def key(ev):
+        p, a = ev
+        return ([(g, 0 if b else 1) for g, b in p], a)
+    todo = list(events)
+    out = []
+    while todo:
+        avail = [i for i, e in enumerate(todo)
+                 if all(_exclusive(todo[j][0], e[0]) for j in range(i))]
+        i = min(avail, key=lambda k: key(todo[k]))
+        out.append(todo.pop(i))
+    return out
+
+
 def render(events):
     out = []
     for p, a in events:
@@ -959,7 +999,7 @@ def extract(repo, cfg, mods=None, roles=None):
     if not isinstance(fn, ast.FunctionDef):
         raise Unsupported(cfg["path"] + " is not a function")
     ch.walk(fn.body, [])
-    return ch.events
+    return canonical_order(ch.events)
 
 
 def translate(repo):
